@@ -1,5 +1,5 @@
 from .. import common, mir
-from ..rules import c18
+from ..rules import c18, c15
 
 
 def run(tier, replay=None):
@@ -8,5 +8,12 @@ def run(tier, replay=None):
     mir.ensure_facts(cfgs)
     rep.configs = cfgs
     for cfg in cfgs:
-        c18.run(rep, mir.load(cfg), cfg)
+        crate = mir.load(cfg)
+        c18.run(rep, crate, cfg)
+        # C18-R2: inside the property's domain (K + start + n <= 2^24) producing the window neither overflows nor refuses:
+        # the obligations of repair_packets / PayloadId::new / the tuple generator are those of C15-R3
+        tab = c15.run_tables(rep, crate, cfg)
+        scans = c15.run_lookup_schema(rep, crate, cfg)
+        if tab is not None:
+            c15.run_ranges(rep, crate, cfg, scans, tab)
     return rep.finish("other", "repair stream addressing: structural clauses", "./check C18 %s" % tier)
